@@ -38,6 +38,9 @@ class TemplateExecutor(Executor):
                 return v
             if v.ty.kind == "bool":
                 return SV(VINT(z3.If(v.z, 1, 0)), VAL)
+            if v.ty.kind == "seq" and v.ty.elem.kind == "val":
+                self.p.assume(VUNLIST(VLIST(v.z)) == v.z)  # a list value enumerates its items
+                return SV(VLIST(v.z), VAL)
             return lift(v, VAL) if v.ty.kind in ("int", "str", "char") or (v.ty.kind == "seq" and v.ty.elem.kind == "val") else SV(self.box(v), VAL)
         if isinstance(v, Ref):
             c = self.p.cell(v)
@@ -213,6 +216,11 @@ class TemplateExecutor(Executor):
             return self.opaque_call("str", args, {})
         return super().b_str(args, kw, node, fr)
 
+    def b_abs(self, args, kw, node, fr):
+        if args and isinstance(args[0], SV) and args[0].ty.kind == "val":
+            return self.opaque_call("abs", args, {})
+        return super().b_abs(args, kw, node, fr)
+
     def b_int(self, args, kw, node, fr):
         if args and isinstance(args[0], SV) and args[0].ty.kind == "val":
             return self.opaque_call("int", args, {})
@@ -283,6 +291,9 @@ class TemplateExecutor(Executor):
         if isinstance(op, (ast.Is, ast.IsNot)) and (isinstance(a, SV) and a.ty.kind == "val") and isinstance(b, (type, Builtin, OpaqueValue)):
             r = SV(uf("is_" + re.sub(r"\W", "_", repr(getattr(b, "name", getattr(b, "__name__", "x")))), [VAL_SORT], z3.BoolSort())(a.z), BOOL)
             return SV(z3.Not(r.z), BOOL) if isinstance(op, ast.IsNot) else r
+        if isinstance(op, (ast.Lt, ast.LtE, ast.Gt, ast.GtE)) and ((isinstance(a, SV) and a.ty.kind == "val") or (isinstance(b, SV) and b.ty.kind == "val")):
+            # ordering of opaque values: an uninterpreted predicate (the same test gives the same answer)
+            return SV(uf("cmp_" + type(op).__name__, [VAL_SORT, VAL_SORT], z3.BoolSort())(self.to_val(a).z, self.to_val(b).z), BOOL)
         if isinstance(a, SV) and a.ty.kind == "val" and not (isinstance(b, SV) and b.ty.kind == "val"):
             if isinstance(op, (ast.Eq, ast.NotEq)) and isinstance(b, (int, str, SV)):
                 b = self.to_val(b)
